@@ -476,7 +476,11 @@ func (fr *frame) lookup(x *ssa.Lookup, st *State) Value {
 						// string key: same length and the same bytes
 						cs := []Term{Eq(key.Len, Num(int64(len(gf.mapS[i]))))}
 						for j := 0; j < len(gf.mapS[i]); j++ {
-							cs = append(cs, Eq(Select(fx.strMem(), Add(key.T, Num(int64(j)))), Num(int64(gf.mapS[i][j]))))
+							if o, ok := fx.strFrom[key.T]; ok {
+								cs = append(cs, Eq(Select(o.arr, Add(o.ptr, Num(int64(j)))), Num(int64(gf.mapS[i][j]))))
+							} else {
+								cs = append(cs, Eq(Select(fx.strMem(), Add(key.T, Num(int64(j)))), Num(int64(gf.mapS[i][j]))))
+							}
 						}
 						c = fx.enc.Def("mapkey", "Bool", And(cs...))
 					} else {
@@ -649,6 +653,12 @@ func (fr *frame) convert(x *ssa.Convert, st *State) Value {
 				fx.enc.Assume(Forall(q, Implies(And(Le("0", q), Lt(q, v.Len)),
 					Eq(Select(fx.strMem(), Add(p, q)), Select(fx.heapOf(st, "M.uint8"), Add(v.T, q))))))
 			}
+			// remember where the bytes came from: comparisons of this string with constants can then be stated on the
+			// byte memory directly (no quantifier instantiation needed)
+			if fx.strFrom == nil {
+				fx.strFrom = map[Term]strOrigin{}
+			}
+			fx.strFrom[p] = strOrigin{arr: fx.heapOf(st, "M.uint8"), ptr: v.T}
 			return Value{Kind: KString, T: p, Len: v.Len, Typ: to}
 		}
 		n := fx.enc.Decl("slen", "Int")
